@@ -61,13 +61,18 @@ type Env struct {
 	Over   map[*Symbol]Val
 	Dom    map[string]Domain // by canonical identity
 	memo   map[*Term]Val
+	NoPre  bool // ignore LenAlias/TermOver (path conditions are compared on unconstrained inputs)
+	TermOver map[*Term]*Term // term evaluated as another term (a quantity a precondition equates with a length)
+	Tables map[*Symbol][]Val // read-only literal tables (consttab.go)
+	LenAlias map[string]*Term // "len:<canon>" -> term the length equals under an equality precondition
+	Alias  map[*Symbol]*Term // symbol defined as a term over other (canonically identified) symbols
 	Atoms  []atomRec
 	Errs   []string
 	FnAlias map[string]string // canonical call name aliases (repo function -> reference function)
 }
 
 func NewEnv(seed uint64) *Env {
-	return &Env{Seed: seed, Canon: map[*Symbol]string{}, Over: map[*Symbol]Val{}, Dom: map[string]Domain{}, memo: map[*Term]Val{}, FnAlias: map[string]string{}}
+	return &Env{Seed: seed, Canon: map[*Symbol]string{}, Over: map[*Symbol]Val{}, Dom: map[string]Domain{}, memo: map[*Term]Val{}, FnAlias: map[string]string{}, Alias: map[*Symbol]*Term{}, LenAlias: map[string]*Term{}, Tables: map[*Symbol][]Val{}, TermOver: map[*Term]*Term{}}
 }
 
 func (e *Env) Reset(seed uint64) {
@@ -144,6 +149,9 @@ func (e *Env) symVal(sy *Symbol) Val {
 	if v, ok := e.Over[sy]; ok {
 		return v
 	}
+	if t, ok := e.Alias[sy]; ok {
+		return e.Eval(t)
+	}
 	if sy.Kind == SIter && sy.Loop != nil && sy.Loop.Bound != nil {
 		// iteration counters range over the whole iteration space, with the ends over-represented
 		b := e.Eval(sy.Loop.Bound)
@@ -166,6 +174,34 @@ func (e *Env) symVal(sy *Symbol) Val {
 				v = 0
 			}
 			return Val{K: TInt, I: v}
+		}
+	}
+	if sy.Kind == SIterEnd {
+		// the iteration at which a loop was left: the bound itself when it was left through its head test,
+		// some earlier iteration otherwise
+		if ls, ok := sy.Obj.(*LoopS); ok && ls.Bound != nil {
+			b := e.Eval(ls.Bound)
+			var head *Exit
+			for _, x := range ls.Exits {
+				if x.AtHead && x.Sym != nil && ls.Info != nil && x.From == ls.Info.Header {
+					head = x
+				}
+			}
+			if b.K == TInt && b.I >= 0 && head != nil {
+				if e.symVal(head.Sym).B {
+					return Val{K: TInt, I: b.I}
+				}
+				if b.I > 0 {
+					return Val{K: TInt, I: int64(h64(e.Seed, "iend", e.canonOf(sy)) % uint64(b.I))}
+				}
+			}
+		}
+	}
+	if sy.Ty == TInt && (sy.Kind == SLoopVar || sy.Kind == SOut) {
+		// accumulators and the values they leave a loop with may be negative (walks, differences): sample both signs
+		id := e.canonOf(sy)
+		if _, ok := e.Dom[id]; !ok {
+			return Val{K: TInt, I: int64(h64(e.Seed, id)%61) - 20}
 		}
 	}
 	return e.randFor(e.canonOf(sy), sy.Ty)
@@ -250,6 +286,9 @@ func (e *Env) recAtom(kind string, d float64, strict bool) {
 }
 
 func (e *Env) Eval(t *Term) Val {
+	if o, ok := e.TermOver[t]; ok && !e.NoPre {
+		return e.Eval(o)
+	}
 	if v, ok := e.memo[t]; ok {
 		return v
 	}
@@ -327,6 +366,27 @@ func (e *Env) eval(t *Term) Val {
 			x = 0
 		}
 		return Val{K: TInt, I: x}
+	case "iabs":
+		x := a(0).I
+		e.recAtom("iabs", float64(x), false) // where the kink is belongs to the signature (any spelling of abs has it)
+		if x < 0 {
+			x = -x
+		}
+		return Val{K: TInt, I: x}
+	case "imax":
+		x, y := a(0).I, a(1).I
+		e.recAtom("imax", float64(x-y), false)
+		if y > x {
+			x = y
+		}
+		return Val{K: TInt, I: x}
+	case "imin":
+		x, y := a(0).I, a(1).I
+		e.recAtom("imin", float64(x-y), false)
+		if y < x {
+			x = y
+		}
+		return Val{K: TInt, I: x}
 	case "shl":
 		s := a(1).I
 		if s < 0 || s > 62 {
@@ -337,6 +397,11 @@ func (e *Env) eval(t *Term) Val {
 		s := a(1).I
 		if s < 0 || s > 62 {
 			s = 62
+		}
+		if _, isConst := t.Args[1].IntVal(); isConst {
+			// x >> k jumps where x / 2^k does
+			e.recAtom("idiv-num", float64(a(0).I), false)
+			e.recAtom("idiv-den", float64(int64(1)<<uint(s)), false)
 		}
 		return Val{K: TInt, I: a(0).I >> uint(s)}
 	case "and":
@@ -484,6 +549,17 @@ func (e *Env) eval(t *Term) Val {
 	}
 	switch t.Op {
 	case "ld", "at", "addr", "fieldval", "indexval", "closure", "cap", "substr":
+		if t.Op == "ld" && len(t.Args) == 2 && t.Args[0].K == KSym {
+			if tab := e.Tables[t.Args[0].Sym]; tab != nil && vs[1].K == TInt && vs[1].I >= 0 && vs[1].I < int64(len(tab)) {
+				el := tab[vs[1].I]
+				if t.Ty == TFloat && el.K == TInt {
+					el = Val{K: TFloat, F: float64(el.I)}
+				}
+				if el.K == t.Ty {
+					return el
+				}
+			}
+		}
 		v := e.opaqueFn(t.Op, t.Ty, vs)
 		if t.Op == "ld" && t.Ty == TInt {
 			// loaded integers: moderate range
@@ -492,7 +568,8 @@ func (e *Env) eval(t *Term) Val {
 		return v
 	}
 	if strings.HasPrefix(t.Op, "zero:") || strings.HasPrefix(t.Op, "conv:") {
-		return e.opaqueFn(t.Op, t.Ty, vs)
+		// type names without the package path: the reference package declares its own FFT, TestResult, ...
+		return e.opaqueFn(normType(t.Op), t.Ty, vs)
 	}
 	e.Errs = append(e.Errs, "eval: unsupported op "+t.Op)
 	return e.opaqueFn(t.Op, t.Ty, vs)
@@ -502,6 +579,9 @@ func (e *Env) lenOfRef(t *Term, x Val) Val {
 	id := "len:" + valKey(x)
 	if t.K == KSym {
 		id = "len:" + e.canonOf(t.Sym)
+		if al, ok := e.LenAlias[id]; ok && !e.NoPre {
+			return e.Eval(al)
+		}
 	}
 	d, ok := e.Dom[id]
 	if !ok {
